@@ -9,6 +9,11 @@
 //	clientid san x<hex> <parsed>     clientAddr(string).String()
 //	clientid bb|bb0 <cap> <events>   real server: WebSocket carriers + KCP/smux sessions
 //	                                 (c = carrier, a = new session + first stream, t<k> = further stream of session k)
+//	clientid bbe <cap> <events>      as bb, plus e<k>: the client closes the k-th carrier of the scenario (0-based, in the
+//	                                 order of the c-events); the driver goes on when the server's handler of that carrier
+//	                                 has returned (one goroutine fewer inside httpHandler.ServeHTTP), so that whatever the
+//	                                 handler does when its carrier ends has happened before the next event. A session is
+//	                                 established over the oldest carrier of its ClientID that is still open and unused.
 //	clientid burst <cap> <events>    the same plus bursts  b<m>+<id>.<streams>.<rank>+...: the sessions
 //	                                 of the items (distinct ClientIDs, one unused carrier each) are set
 //	                                 up with their first packets held back; then all first packets are
@@ -73,7 +78,7 @@ func verifC18(args []string) string {
 			return "!badcase"
 		}
 		return verifAddrPrint(clientAddr(string(s)))
-	case "bb", "bb0", "burst":
+	case "bb", "bb0", "bbe", "burst":
 		return verifBlackBox(args[1], args[2])
 	}
 	return "!badcase"
@@ -209,6 +214,14 @@ func verifSnapshot() verifSnap {
 	return verifSnap{m.oldest, sb.String()}
 }
 
+var verifStackBuf = make([]byte, 4<<20)
+
+// verifHandlers: how many goroutines are inside the server's WebSocket handler right now
+func verifHandlers() int {
+	n := runtime.Stack(verifStackBuf, true)
+	return strings.Count(string(verifStackBuf[:n]), "(*httpHandler).ServeHTTP(")
+}
+
 func verifFreePort() int {
 	l, err := net.Listen("tcp", "127.0.0.1:0")
 	if err != nil {
@@ -255,6 +268,9 @@ func verifBlackBox(capTok, evTok string) (result string) {
 	unused := map[turbotunnel.ClientID][]net.Conn{} // carriers no session has used yet, oldest first
 	var out []string
 	var sessions []*smux.Session // established sessions, in order of their a-events
+	var carriers []net.Conn      // every carrier of the scenario, in order of the c-events
+	ended := map[net.Conn]bool{}
+	var sessCarrier []net.Conn // the carrier each session was established over
 	// open one more stream on a session, send on it, and report RemoteAddr() of the connection
 	// the listener hands out for it (events are sequential: it is the next one accepted)
 	openAndAccept := func(sess *smux.Session) string {
@@ -348,6 +364,35 @@ func verifBlackBox(capTok, evTok string) (result string) {
 				}
 			}
 			unused[id] = append(unused[id], conn)
+			carriers = append(carriers, conn)
+		case 'e':
+			k, err := strconv.Atoi(ev[1:])
+			if err != nil || k < 0 || k >= len(carriers) || ended[carriers[k]] {
+				return "!badcase no such open carrier"
+			}
+			conn := carriers[k]
+			ended[conn] = true
+			for id, l := range unused {
+				for i, c := range l {
+					if c == conn {
+						unused[id] = append(append([]net.Conn{}, l[:i]...), l[i+1:]...)
+					}
+				}
+			}
+			before := verifHandlers()
+			conn.Close()
+			// wait until the handler of this carrier has returned; when the handlers cannot be counted (the
+			// function was renamed) a grace period has to do
+			if before == 0 {
+				time.Sleep(200 * time.Millisecond)
+			} else {
+				// (a handler that had not even started when the count was taken makes the count useless: go on
+				// after the deadline, the scenario is then simply less sharp)
+				deadline := time.Now().Add(20 * time.Second)
+				for verifHandlers() >= before && time.Now().Before(deadline) {
+					time.Sleep(2 * time.Millisecond)
+				}
+			}
 		case 'a':
 			id := verifID(ev[1:])
 			if len(unused[id]) == 0 {
@@ -360,6 +405,7 @@ func verifBlackBox(capTok, evTok string) (result string) {
 				return e
 			}
 			sessions = append(sessions, sess)
+			sessCarrier = append(sessCarrier, conn)
 			if e := openAndAccept(sess); e != "" {
 				return e
 			}
@@ -367,6 +413,9 @@ func verifBlackBox(capTok, evTok string) (result string) {
 			k, err := strconv.Atoi(ev[1:])
 			if err != nil || k < 0 || k >= len(sessions) {
 				return "!badcase no such session"
+			}
+			if k < len(sessCarrier) && ended[sessCarrier[k]] {
+				return "!badcase the session's carrier has ended"
 			}
 			if e := openAndAccept(sessions[k]); e != "" {
 				return e
